@@ -191,7 +191,13 @@ def reject_strategy(tier):
 def check_reuse(c):
     alg = c["alg"]
     h = guard(make, alg)
-    for i, (M, L) in enumerate(c["msgs"]):
+    for i, entry in enumerate(c["msgs"]):
+        if entry[0] == "update":
+            # streaming use of the same object between two one-shot calls (whole blocks without padding, or a
+            # padded final piece); its result is not judged here, the next one-shot digest is
+            attempt(h.update, entry[1], padding=entry[2])
+            continue
+        M, L = entry
         if L is not None and L > 8 * len(M):
             st_, r = attempt(h, M, bitlen=L)
             if st_ == "ok":
@@ -209,7 +215,10 @@ def reuse_strategy(tier):
         msg = st.tuples(gen.blob_of(gen.pick((2, gen.uint(0, 20)), (1, gen.uint(B - 20, B + 20)), (1, gen.uint(0, 3 * B)))),
                         gen.uint(0, 3), gen.uint(1, 7)).map(
             lambda t: (t[0], None if t[1] <= 1 or not t[0] else 8 * len(t[0]) - t[2] if t[1] == 2 else 8 * len(t[0]) + t[2]))
-        return st.lists(msg, min_size=2, max_size=4).map(lambda l: {"alg": alg, "msgs": tuple(l)})
+        upd = gen.pick((3, st.tuples(st.just("update"), gen.blob_of(st.sampled_from([B, 2 * B, 0])), st.just(False))),
+                       (1, st.tuples(st.just("update"), gen.blob_of(gen.uint(0, B + 20)), st.just(True))))
+        return st.lists(gen.pick((3, msg), (1, upd)), min_size=2, max_size=4).map(
+            lambda l: {"alg": alg, "msgs": tuple(l) if len(l[-1]) == 2 else tuple(l) + ((b"abc", None),)})
     return st.sampled_from(ALGS).flatmap(for_alg)
 
 
@@ -231,8 +240,11 @@ FACETS = [
                "update(tail, padding=True) == reference resumed from the same midstate"),
     Facet("reused-object", check_reuse, strategy=reuse_strategy, budget={"quick": 800, "thorough": 20000},
           nontrivial=lambda c: len(c["msgs"]) >= 2,
-          classify=lambda c: (c["alg"], "has rejected call" if any(L is not None and L > 8 * len(M) for M, L in c["msgs"]) else "no rejected call"),
-          rule="2..4 messages (byte and bit lengths, some with an over-long bit length that must be refused) hashed one after the other by ONE object"),
+          classify=lambda c: (c["alg"],
+                              "has rejected call" if any(len(e) == 2 and e[1] is not None and e[1] > 8 * len(e[0]) for e in c["msgs"]) else "no rejected call",
+                              "has streaming update" if any(len(e) == 3 for e in c["msgs"]) else "one-shot only"),
+          rule="2..5 calls on ONE object: one-shot digests (byte and bit lengths, some with an over-long bit length that must be refused) "
+               "interleaved with streaming update() calls (whole blocks without padding, or a padded final piece); every one-shot digest is judged"),
     Facet("reject-bitlen", check_reject, strategy=reject_strategy, budget={"quick": 600, "thorough": 10000},
           nontrivial=lambda c: True, classify=lambda c: (c["alg"],),
           rule="L = 8|M| + d, d >= 1: an exception, never a digest"),
